@@ -656,8 +656,9 @@ pub fn diag(rng: &mut Rng, count: u64, emit: Emit) {
                 else if f != "   lines */ " { lines.push(String::from(f)); }
             }
         };
-        let base: [&str; 8] = ["wire a : 8;", "a = 1;", "wire b : 4;", "b = 2;", "pc = 0;", "Stat = STAT_AOK;", "wire c : 8;", "c = a;"];
-        let kind = rng.below(20);
+        let base: [&str; 10] = ["wire a : 8;", "a = 1;", "wire b : 4;", "b = 2;", "pc = 0;", "Stat = STAT_AOK;", "wire c : 8;", "c = a;",
+            "register fD { k : 8 = 0; }", "f_k = D_k;"];
+        let kind = rng.below(22);
         let indent: String = " ".repeat(rng.below(5) as usize);
         let lead: &str = *rng.pick(&["", "", "a = 1; ", "/* c */ "][..]);
         // (fault line, column of the offending span within the line, its length, kind name, line replaced or inserted)
@@ -681,6 +682,8 @@ pub fn diag(rng: &mut Rng, count: u64, emit: Emit) {
             17 => { let l = format!("{}c = (b == a);", indent); (l, indent.len() + 5, 1, "compare-width-mismatch", Some("c = a;")) }
             18 => { let l = format!("{}c = (a ..\n{}       0xA5)[0..8];", indent, indent); (l, indent.len() * 2 + 17, 4, "concat-second-line", Some("c = a;")) }
             9 => { let l = format!("{}zz = 1;", indent); (l, indent.len(), 2, "undeclared-assigned", None) }
+            // a second bank with the same input letter declares a register of the same name: both declarations are shown
+            20 | 21 => { let l = format!("{}register fE {{ k : 8 = 0; }}", indent); (l, indent.len() + 14, 9, "dup-register", None) }
             _ => { let l = format!("{}c = a[4..2];", indent); (l, indent.len() + 4, 7, "bad-slice", Some("c = a;")) }
         };
         let _ = lead;
@@ -708,6 +711,12 @@ pub fn diag(rng: &mut Rng, count: u64, emit: Emit) {
             user.push_str(l);
             if i + 1 < lines.len() || rng.chance(2, 3) { user.push_str(eol); }
         }
+        // a second place that the diagnostic has to show: the other declaration
+        let planted2: Option<(usize, usize)> = match kname {
+            "redeclared" => user.match_indices("wire a : 8;").map(|(i, _)| i + 5).find(|i| *i != fault_off + tok_col).map(|i| (i, i + 5)),
+            "dup-register" => user.find("register fD {").map(|i| (i + 14, i + 23)),
+            _ => None,
+        };
         let name = "t.hcl";
         let contents = FileContents::new_from_data(pre, &user, name);
         let res = catch_unwind(AssertUnwindSafe(|| {
@@ -729,8 +738,9 @@ pub fn diag(rng: &mut Rng, count: u64, emit: Emit) {
         let mut shown_hex: Vec<String> = shown.iter().map(|r| hex_of(r.as_bytes())).collect();
         shown_hex.sort();
         let result = if result.starts_with("err") { format!("{} shown={}", result, shown_hex.len()) } else { result };
-        emit(format!("(diag (prelen {}) (user {}) (name {}) (kind {}) (planted {} {}) (spans {}) (shown {}))",
-                     pre.len(), bl(user.as_bytes()), bl(name.as_bytes()), kname, fault_off + tok_col, fault_off + tok_col + tok_len,
+        let p2 = match planted2 { Some((a, b)) => format!(" (planted2 {} {})", a, b), None => String::new() };
+        emit(format!("(diag (prelen {}) (user {}) (name {}) (kind {}) (planted {} {}){} (spans {}) (shown {}))",
+                     pre.len(), bl(user.as_bytes()), bl(name.as_bytes()), kname, fault_off + tok_col, fault_off + tok_col + tok_len, p2,
                      spans.iter().map(|(a, b)| format!("({} {})", a, b)).collect::<Vec<_>>().join(" "),
                      shown_hex.join(" ")), result);
     }
@@ -745,7 +755,7 @@ pub fn anytext(rng: &mut Rng, count: u64, emit: Emit) {
     let toks: [&str; 43] = ["wire", "const", "register", "in", "x", "pc", "Stat", "=", "==", ";", ":", ",", "(", ")", "[", "]", "{", "}", "..",
         "+", "-", "*", "/", "&&", "||", "!", "~", "<", ">>", "0", "1", "0b101", "0x1f", "8", "é", "€", "/*", "*/", "#", "\"", "\u{b2}", "\u{663}", "\u{bd}"];
     for _ in 0..count {
-        let mode = rng.below(9);
+        let mode = rng.below(10);
         let mut bytes: Vec<u8> = if mode == 0 { random_text(rng).into_bytes() } else if mode == 8 {
             // a half-wired built-in component whose enable signal is a constant expression of any kind
             let nasty: [&str; 16] = ["0b11[3..1]", "1/0", "[0:1]", "0b11 && 1", "(0xffffffffffffffffffffffffffffffff .. 0b1)", "[1 : 0x100; 0 : 0b1]",
@@ -759,13 +769,24 @@ pub fn anytext(rng: &mut Rng, count: u64, emit: Emit) {
             format!("pc = 0; Stat = STAT_AOK;\n{}", body).into_bytes()
         } else {
             let profile = *rng.pick(&[Profile::Dag, Profile::Banks, Profile::RegFile, Profile::Memory, Profile::Status]);
-            let g = proggen::program(rng, profile);
+            let mut g = proggen::program(rng, profile);
+            // one planted fault of any class (names of every shape, ASCII or not): the diagnostics are rendered below
+            if mode == 9 {
+                if rng.chance(1, 3) {
+                    // an undeclared name of unusual shape, assigned or read
+                    let n = proggen::odd_name(rng);
+                    let at = rng.below(g.stmts.len() as u64 + 1) as usize;
+                    let stmt = if rng.chance(1, 2) { format!("{} = 1;", n) } else { format!("wire zz9:8; zz9 = {} + 1;", n) };
+                    g.stmts.insert(at, proggen::Stmt::Raw(stmt));
+                } else { proggen::inject_fault(rng, &mut g); }
+            }
             proggen::render_program(&g.stmts).into_bytes()
         };
         let mut how = String::from("soup");
         if mode != 0 && !bytes.is_empty() {
             match mode {
                 8 => { how = String::from("half-wired-component"); }
+                9 => { how = String::from("fault-injected"); }
                 1 => { let cut = rng.below(bytes.len() as u64 + 1) as usize; bytes.truncate(cut); how = String::from("truncated"); }
                 2 | 3 | 4 => {
                     // edit at a blank: insert, delete or substitute one token
